@@ -4,6 +4,7 @@ import FsDb.Model.Config
 import FsDb.Model.Sys
 import FsDb.Spec.Iso
 import FsDb.Model.Wire
+import FsDb.Model.Dir
 /-!
   Line-protocol driver: one operation per line on stdin, one answer per line on stdout.
   Imports model/spec modules only (core Lean) so that it links as an executable.
@@ -16,6 +17,7 @@ structure St where
   sys : Sys := {}
   spec : Spec.State := {}
   -- C05: several databases sharing the process-global sequence counter
+  dirs : Dir.St := { max := 100, roots := [] }
   gcounter : Nat := 0
   mdbs : List (Nat × Sys × Spec.State × Bool) := []     -- db id ↦ (model, spec, open?)
 
@@ -230,6 +232,35 @@ def stepErr (args : List String) : String :=
     | none => "bad-op"
   | _ => "bad-op"
 
+def showDirs (s : Dir.St) : String :=
+  "|".intercalate (s.roots.map (fun r => ",".intercalate (((r.map (·.count)).mergeSort (· ≤ ·)).map toString)))
+
+/-- C17 sub-protocol (`dir …`) -/
+def stepDir (s : Dir.St) (args : List String) : Dir.St × String :=
+  match args with
+  | ["new", n, m] =>
+    match n.toNat?, m.toNat? with
+    | some n, some m => ({ max := m, roots := List.replicate n [] }, "ok")
+    | _, _ => (s, "bad-op")
+  | ["put", r, c] =>
+    match r.toNat?, c.toNat? with
+    | some r, some c =>
+      if c ≥ s.max then (s, "illegal:full") else
+      match s.put r c with
+      | some s' => (s', "ok")
+      | none => (s, "illegal:not-a-candidate")
+    | _, _ => (s, "bad-op")
+  | ["del", r, c] =>
+    match r.toNat?, c.toNat? with
+    | some r, some c =>
+      match s.del r c with
+      | some s' => (s', "ok")
+      | none => (s, "illegal:no-such-dir")
+    | _, _ => (s, "bad-op")
+  | ["reopen"] => (s.reopen, "ok")
+  | ["tree"] => (s, showDirs s)
+  | _ => (s, "bad-op")
+
 def stepCodec2 (a b : String) : String :=
   let ra := stepCodec ["dec", a]
   let rb := stepCodec ["dec", b]
@@ -246,6 +277,7 @@ def step (st : St) (line : String) : St × String :=
   | "cfg" :: args => (st, stepCfg args)
   | "sys" :: args => stepSys st args
   | "mdb" :: args => stepMdb st args
+  | "dir" :: args => let r := stepDir st.dirs args; ({ st with dirs := r.1 }, r.2)
   | [] => (st, "")
   | _ => (st, "bad-op")
 
